@@ -830,7 +830,8 @@ def fns_worker(job):
             bag.add('evaluations', 3)
             az = None
             if version != '2.0':
-                az = xpath_call('for $e in analyze-string($s,$p,$f)/* return (local-name($e), string($e))',
+                # (the text nodes are joined explicitly: the string value of mixed content is property C02's business)
+                az = xpath_call('for $e in analyze-string($s,$p,$f)/* return (local-name($e), string-join($e/descendant-or-self::node()/text(), ""))',
                                 version, ver, s=text, p=pv, f=flag)
                 bag.add('evaluations')
             if nullable:
@@ -950,7 +951,7 @@ FOR_EXPR = {
     'tokenize': "for $i in 1 to count($ff) return string-join(tokenize($ss[$i], $pp[$i], $ff[$i]), '|')",
     'replace': "for $i in 1 to count($ff) return replace($ss[$i], $pp[$i], 'X', $ff[$i])",
     'analyze-string': "for $i in 1 to count($ff) return string-join(for $e in analyze-string($ss[$i], $pp[$i], $ff[$i])/* "
-                      "return concat(substring(local-name($e), 1, 1), ':', string($e)), '|')",
+                      "return concat(substring(local-name($e), 1, 1), ':', string-join($e/descendant-or-self::node()/text(), '')), '|')",
 }
 
 
@@ -1436,7 +1437,7 @@ def replay_case(case: dict):
                 return not (is_err(r) and r[0] == 'err'), r
             r = r[0] if isinstance(r, list) and len(r) == 1 else r
             return (r not in exp) if law == 'join' else (r != t), r
-        r = xpath_call('for $e in analyze-string($s,$p,$f)/* return (local-name($e), string($e))', v, ver, s=t, p=p, f=f)
+        r = xpath_call('for $e in analyze-string($s,$p,$f)/* return (local-name($e), string-join($e/descendant-or-self::node()/text(), ""))', v, ver, s=t, p=p, f=f)
         if law == 'nullable-error':
             return not (is_err(r) and r[0] == 'err'), r
         if is_err(r):
